@@ -1078,9 +1078,9 @@ def wl_ambient(run, rng, idx):
 
 
 WORKLOADS = [
-    Workload("round-trip", wl_roundtrip, quick=240, thorough=24000),
-    Workload("round-trip-halfspace-data", wl_roundtrip_halfspace, quick=72, thorough=8640),
-    Workload("metric", wl_metric, quick=360, thorough=48000),
-    Workload("construction", wl_construction, quick=60, thorough=2880),
-    Workload("ambient", wl_ambient, quick=24, thorough=960),
+    Workload("round-trip", wl_roundtrip, quick=240, thorough=14400),
+    Workload("round-trip-halfspace-data", wl_roundtrip_halfspace, quick=72, thorough=5184),
+    Workload("metric", wl_metric, quick=360, thorough=28800),
+    Workload("construction", wl_construction, quick=60, thorough=1728),
+    Workload("ambient", wl_ambient, quick=24, thorough=576),
 ]
